@@ -100,7 +100,15 @@ def normalize(expr):
             return inner.operand
         return ast.UnaryOp(op=ast.Not(), operand=inner)
     if isinstance(expr, ast.BoolOp):
-        return ast.BoolOp(op=expr.op, values=[normalize(v) for v in expr.values])
+        vals = [normalize(v) for v in expr.values]
+        # De Morgan: a connective all of whose operands are negations is the
+        # negation of the dual connective (one spelling for both)
+        if all(isinstance(v, ast.UnaryOp) and isinstance(v.op, ast.Not)
+               for v in vals):
+            dual = ast.Or() if isinstance(expr.op, ast.And) else ast.And()
+            return ast.UnaryOp(op=ast.Not(), operand=ast.BoolOp(
+                op=dual, values=[v.operand for v in vals]))
+        return ast.BoolOp(op=expr.op, values=vals)
     if isinstance(expr, ast.Compare) and len(expr.ops) == 1:
         c, pol = _norm_compare(expr, True)
         return c if pol else ast.UnaryOp(op=ast.Not(), operand=c)
